@@ -249,8 +249,8 @@ class WAUROC(_Win):
         return (x, y), ({} if w is None else {"weight": w})
 
     def update(self, metric, cfg, batch):
-        # A stale cursor beyond the buffer (only reachable through D5: merge-enlarged object, then
-        # load_state_dict of a smaller dict) makes the slice assignment raise before any state is
+        # A stale cursor beyond the buffer (only reachable through D5-load: merge-enlarged object,
+        # then load_state_dict of a smaller dict; reset() rewinds the cursor since c5ceb09) makes the slice assignment raise before any state is
         # touched; the model maps exactly this situation to "state unchanged".
         stale = metric.next_inserted > metric.max_num_samples and self.size(batch) < metric.max_num_samples
         try:
@@ -264,33 +264,3 @@ class WAUROC(_Win):
 ENTRIES = [WCTR(), WMSE(), WNE(), WWC(), WAUROC()]
 UPDATE_GRANULAR = ENTRIES[:4]
 
-
-def sanitize(e, cfg, ops):
-    """History normalisation used by the window check parts (never by the generic ones):
-    * merge arguments given as a generator are re-issued as lists -- the double iteration of the
-      argument is D18 and belongs to C01 (vlib/parts/C01_window.py reports it);
-    * WindowedMeanSquaredError with num_tasks > 1 and lifetime: a merge INTO an object whose
-      lifetime sum_squared_error is still the 0-dim default adopts the source tensor BY REFERENCE
-      (D2, C11): afterwards the two objects share storage, which no value-level pool model can
-      express.  Such merges are dropped (tracked exactly: 'vec' = lifetime state already adopted)."""
-    alias = e.name == "WindowedMeanSquaredError" and cfg["num_tasks"] > 1 and cfg["enable_lifetime"]
-    vec, dvec, out = {}, {}, []
-    for o in ops:
-        k = o[0]
-        if k == "merge":
-            o = (o[0], o[1], o[2], "list" if (len(o) > 3 and o[3] == "gen") else (o[3] if len(o) > 3 else "list"))
-            if alias:
-                if not vec.get(o[1], False) and any(vec.get(j, False) for j in o[2]):
-                    continue
-        elif k == "upd":
-            vec[o[1]] = True
-        elif k in ("reset", "new"):
-            vec[o[1]] = False
-        elif k in ("clone", "pickle"):
-            vec[o[2]] = vec.get(o[1], False)
-        elif k == "save":
-            dvec[o[2]] = vec.get(o[1], False)
-        elif k == "load":
-            vec[o[1]] = dvec.get(o[2], False)
-        out.append(o)
-    return out
